@@ -235,6 +235,7 @@ fn alpha(cfg: &Cfg) -> Vec<Op> {
         c(Decsc),
         c(Decrc),
         c(sgr1(41)),
+        c(sgr1(1)),
         c(DecSet(vec![47])),
         c(DecSet(vec![1047])),
         c(DecSet(vec![1049])),
@@ -301,6 +302,7 @@ fn alpha_ls(cfg: &Cfg) -> Vec<Op> {
         c(Decsc),
         c(Decrc),
         c(sgr1(41)),
+        c(sgr1(1)),
         c(DecSet(vec![47])),
         c(DecSet(vec![1047])),
         c(DecSet(vec![1049])),
@@ -335,6 +337,7 @@ fn alpha_core(cfg: &Cfg) -> Vec<Op> {
         c(Cup(Some(1), Some(cols))),
         c(Cup(Some(2), Some(1))),
         c(sgr1(41)),
+        c(sgr1(1)),
         // input that arrives through feed() (which reports nothing and never trims the primary)
         c(lfs(4)).kind(Kind::FeedChars),
         c(DecSet(vec![1049])).kind(Kind::FeedChars),
